@@ -235,14 +235,14 @@ Notation corr := (corr dbg shs).
 (* a change of the credentials of a URL with a host: the relation from the read-backs *)
 Lemma corr_cred u su u' su' : corr u su -> has_host u = true ->
   wf_b u' = true -> host_text_ok u' -> tight u' ->
-  scheme u' = scheme u -> host_str u' = host_str u -> port u' = port u -> same_back dbg u u' ->
-  su_scheme su' = su_scheme su -> su_host su' = su_host su -> su_port su' = su_port su ->
+  scheme u' = scheme u -> host_str u' = host_str u -> port u' = su_port su' -> same_back dbg u u' ->
+  su_scheme su' = su_scheme su -> su_host su' = su_host su ->
   su_path su' = su_path su -> su_query su' = su_query su -> su_fragment su' = su_fragment su ->
   username dbg u' = Some (su_username su') -> password dbg u' = Some (pw_opt (su_password su')) ->
   clean T_USERINFO (su_username su') = true ->
   corr u' su'.
 Proof.
-  intros C Hh W' HT' T' F1 F4 F5 (B1 & B2 & B3) S1 S4 S5 S6 S7 S8 Eun' Epw' Ec'.
+  intros C Hh W' HT' T' F1 F4 F5 (B1 & B2 & B3) S1 S4 S6 S7 S8 Eun' Epw' Ec'.
   pose proof (co_wf _ _ _ _ C) as W.
   assert (has_host u' = true) as Hh'.
   { rewrite (host_str_eval u' W'), (host_str_eval u W), Hh in F4. destruct (has_host u'); [reflexivity | discriminate F4]. }
@@ -259,7 +259,7 @@ Proof.
   - rewrite Ha', S4. exact Ea.
   - rewrite Ha'. cbn [andb].
     rewrite (at_flag_by_accessors dbg u' _ _ W' Ha' T' Eun' Epw'), opt_is_some_pw_opt. reflexivity.
-  - rewrite F5, S5. exact (co_port _ _ _ _ C).
+  - exact F5.
   - rewrite B1. unfold serialize_path. rewrite S6. exact (co_path _ _ _ _ C).
   - rewrite B2, S7. exact (co_query _ _ _ _ C).
   - rewrite B3, S8. exact (co_frag _ _ _ _ C).
@@ -290,6 +290,7 @@ Proof.
     apply (corr_cred u su u' _ C Hc W' HT'); cbn [Whatwg.set_username su_scheme su_username su_password su_host su_port su_path su_query su_fragment];
       try assumption; try reflexivity.
     + exact (set_username_tight dbg u v u' W HT E (corr_tight dbg shs u su C Hc)).
+    + rewrite F5. exact (co_port _ _ _ _ C).
     + rewrite Eun'. f_equal. rewrite (co_user _ _ _ _ C) in Ecur. injection Ecur as Ecur. subst cur.
       destruct (list_eqb (su_username su) (utf8_encode v)) eqn:Eeq; [|exact (userinfo_bridge v Hv)].
       apply list_eqb_spec in Eeq. unfold upe.
@@ -319,6 +320,7 @@ Proof.
     apply (corr_cred u su u' _ C Hc W' HT'); cbn [Whatwg.set_password su_scheme su_username su_password su_host su_port su_path su_query su_fragment];
       try assumption; try reflexivity.
     + exact (set_password_tight dbg u pw u' W HT E (corr_tight dbg shs u su C Hc)).
+    + rewrite F5. exact (co_port _ _ _ _ C).
     + rewrite F2. exact (co_user _ _ _ _ C).
     + rewrite Epw'. f_equal. subst pw. destruct v as [|c r]; [reflexivity|].
       rewrite (userinfo_bridge (c :: r) Hv).
